@@ -5,7 +5,7 @@ type pair struct{ a, b int }
 var counter int
 
 func deferred(b *box) {
-	defer setVDeclared(b)
+	defer setSeven(b)
 	b.v = 1
 }
 
@@ -121,4 +121,20 @@ func fcmp(x float64) bool {
 
 func u8(x uint8) uint8 {
 	return x + 1
+}
+
+func setSeven(b *box) {
+	b.v = 7
+}
+
+func opaqueBump() {
+	for i := 0; i < 3; i++ {
+		counter++
+	}
+}
+
+func readGlobalAcrossWriter() int {
+	c := counter
+	opaqueBump()
+	return counter - c
 }
